@@ -113,7 +113,7 @@ theorem leaf_interp (ext : Ext) (o : Options) (b : Bool) {ty a : DataType} (hp :
     (hx : leafTypeOf o x = some a) (hna : a ≠ .null) (hok : sampleOK b x = true) {dt : DataType} (hdt : FieldOf ty dt)
     (hex : exclAny ext dt x = false) : ∃ lv, interpScalar ext dt x = .ok lv := by
   simp only [exclAny, Bool.or_eq_false_iff] at hex
-  obtain ⟨⟨⟨⟨hex1, hdate⟩, hu64⟩, hex4⟩, hex5⟩ := hex
+  obtain ⟨⟨⟨hex1, hdate⟩, hu64⟩, hex4⟩ := hex
   -- a string-typed field takes every to-string source
   have hstring : (isUtf8 ty || isLargeUtf8 ty) = true → ∀ s, scalarToString ext x = some s →
       ∃ lv, interpScalar ext dt x = .ok lv := by
@@ -280,15 +280,12 @@ theorem PI_leaf (o : Options) (ext : Ext) (h0 : o.overwrites = []) (x : SVal) (a
     cases x <;> simp only [leafTypeOf, Option.some.injEq, reduceCtorEq] at hx
     case unit =>
       have hu : isUnionDT f.dataType = false := by
-        simpa [hits, exclAny, nullAtEnum, dateLookalike, u64AboveI64, dataLessNewtype, unitStructAtValue] using hex
+        simpa [hits, exclAny, nullAtEnum, dateLookalike, u64AboveI64, dataLessNewtype] using hex
       exact ⟨.null, by rw [interpDT]; exact interpNull_of_nullable h0 hf hn hu⟩
     case unitStruct nm =>
-      have hu : isNullDT f.dataType = true := by
-        simpa [hits, exclAny, nullAtEnum, dateLookalike, u64AboveI64, dataLessNewtype, unitStructAtValue] using hex
-      have hdt : f.dataType = .null := by revert hu; cases f.dataType <;> simp [isNullDT]
-      refine ⟨.null, ?_⟩
-      rw [interpDT, huv, hdt]
-      simp [interpScalar]
+      have hu : isUnionDT f.dataType = false := by
+        simpa [hits, exclAny, nullAtEnum, dateLookalike, u64AboveI64, dataLessNewtype] using hex
+      exact ⟨.null, by rw [interpDT]; exact interpNull_of_nullable h0 hf hn hu⟩
     case int tt v => cases tt <;> simp [intDataType] at hx
     case str s => exact absurd hx (strType_ne_null o s)
   · obtain ⟨n, p, ty', nl', rfl, hty', hm, hidem⟩ := absorb_leaf_state o hw ha hnull h
